@@ -531,3 +531,58 @@ for _prop in ("C01", "C02"):
     _k.__name__ = "cut_intersection_random_n"
     _k.__doc__ = _inside_random_n.__doc__
     scenario(_prop, [SH + "_inside_random_with_n", SH + "_random_points_inside", SH + "_check_in_b", CUT + ".sample_random_uniform", INTER + ".sample_random_uniform"], configs=["cut", "intersection"])(_k)
+
+
+# ----------------------------------------------------------------------------- C18 boxes of moved domains
+@scenario("C18", [TRANS + ".bounding_box"], configs=["fn/K", "const/none"])
+def translate_bounding_box(S):
+    """pre: the inner box encloses the inner domain (operand contract).
+    post: a flat [min_0, max_0, ...] vector that encloses the translated domain for every supplied parameter row"""
+    fn = S.cfg.startswith("fn")
+    A = abstract_domain(S, "A", S.new(R2, "x"), {"t": 1} if fn else None)
+    if fn:
+        tau = RowFn("tau", ["t"], 2, {"t": 1})
+        dom = S.new(TRANS, A.obj, tau)
+        K = S.int("K", 1)
+        Tt = S.tensor("tt", [K, 1])
+        params = S.new(POINTS, Tt, S.new(R1, "t"))
+    else:
+        cs = [S.real("tau0"), S.real("tau1")]
+        dom = S.new(TRANS, A.obj, list(cs))
+        params = empty_points(S)
+    box = S.method(dom, "bounding_box", params).val
+    ok = box.rank == 1 and box.shape[0].concrete() == 4
+    S.ensure("flat-2dim-vector", ok)
+    if not ok:
+        return
+    b = [zreal(box.at([(j,)])) for j in range(4)]
+    x = [z3.Real("px0"), z3.Real("px1")]
+    if fn:
+        k = z3.Int("k")
+        tk = zreal(Tt.val.at([(k,), ()]))
+        tv = tau.value_terms([tk])
+        hy = [k >= 0, k < zint(K)] + S.schema_instances([(k,)])
+        p = [tk]
+    else:
+        tv = [c.t for c in cs]
+        hy, p = [], []
+    y = [x[0] - tv[0], x[1] - tv[1]]
+    S.ensure("encloses-the-translated-domain", z3.Implies(A.in_pred(y, p), z3.And([z3.And(b[2 * i] <= x[i], x[i] <= b[2 * i + 1]) for i in range(2)])), hy + [A.box_fact(y, p)])
+
+
+@scenario("C18", [ROT + ".bounding_box"], configs=["angle-const/none"])
+def rotate_bounding_box(S):
+    """post: encloses the rotated domain (the image of the inner box under the rotation)"""
+    A = abstract_domain(S, "A", S.new(R2, "x"))
+    a0 = S.real("angle0")
+    dom = S.call(S.getattr(S.find(ROT), "from_angles"), A.obj, a0)
+    box = S.method(dom, "bounding_box").val
+    ok = box.rank == 1 and box.shape[0].concrete() == 4
+    S.ensure("flat-2dim-vector", ok)
+    if not ok:
+        return
+    b = [zreal(box.at([(j,)])) for j in range(4)]
+    y = [z3.Real("py0"), z3.Real("py1")]
+    c, s = tlib.cos_sin(a0.t)
+    x = [c * y[0] - s * y[1], s * y[0] + c * y[1]]
+    S.ensure("encloses-the-rotated-domain", z3.Implies(A.in_pred(y, []), z3.And([z3.And(b[2 * i] <= x[i], x[i] <= b[2 * i + 1]) for i in range(2)])), [A.box_fact(y, [])])
